@@ -468,6 +468,9 @@ class _Worker:
 class SimParallel:
     def __init__(self, n_jobs=None, **kw):
         self.n_jobs = n_jobs or 1
+        if self.n_jobs < 0:
+            # joblib's convention: -1 = all CPUs, -2 = all but one, ...
+            self.n_jobs = max(1, cpu_count() + 1 + self.n_jobs)
 
     def __call__(self, iterable):
         tasks = list(iterable)
